@@ -16,11 +16,11 @@ CHECK = {
     "harness": ["actor/zz_verif_rd.go", "actor/zz_verif_c43.go", "internal/commands/zz_verif_rd.go"],
     "entries": [
         {"fn": P + "vC43_producer", "replay": "model-only", "opts": {"feasibility": True, "unwind": 8}},
-        {"fn": P + "vC43_consumer", "replay": "model-only", "cases_quick": {"kind": [0, 1, 2, 3, 4], "bufLen": [0, 1, 2], "spareCap": [1]},
-         "cases_thorough": {"kind": [0, 1, 2, 3, 4], "bufLen": [0, 1, 2, 3], "spareCap": [0, 1]},
+        {"fn": P + "vC43_consumer", "replay": "model-only", "cases_quick": {"kind": [0, 1, 2, 3, 4], "bufLen": [0, 1, 2], "spareCap": [1], "seqBits": [16]},
+         "cases_thorough": {"kind": [0, 1, 2, 3, 4], "bufLen": [0, 1, 2, 3], "spareCap": [0, 1], "seqBits": [61]},
          "cover_optional": ("demand-granted", "buffered", "buffer-full")},
     ],
-    "opts": {"unwind": 6, "substitute": SUB, "feasibility": False},
+    "opts": {"unwind": 8, "substitute": SUB, "feasibility": False, "batch_fresh": True, "reach_fresh": True, "equalfold_ascii": True},
     "stop": [k for k in SUB.keys() if k.startswith("(*" + P)],
     "timeout_ms": {"quick": 400000, "thorough": 1800000},
     "explanation": "TODO",
